@@ -34,3 +34,64 @@ PROPS["C04"] = {
         {"name": "segmentation", "check": "c04"},
     ],
 }
+
+PROPS["C05"] = {
+    "level": "exploration",
+    "rule": "seeded cases (encrypted protocol x cipher x user table x role x wire source x 2-6 single-chunk frames); per case every mutation of the families bit-flip (every byte position of streams <= 400 bytes, sampled above), truncation (every point, then EOF), frame deletion / duplication / adjacent swap / replay of an earlier frame, random insertion at frame boundaries, random multi-byte edits, reflection of the peer's own request (SS2022, VMess); delivered whole or in random cuts through the real FramedRead and (1 in 7) WebSocketFramed, polled past errors like the server relay; plus every single-bit flip and truncation of Shadowsocks UDP datagrams in both roles; non-trivial = a mutated stream/datagram was delivered and what was released was compared; distinct = distinct (case, mutation)",
+    "exhaustive_note": "single-bit flips (one bit per byte position; two in thorough) and truncation points are enumerated completely for streams <= 400 bytes and for every UDP datagram",
+    "assumptions": TB + ["each write is at most one chunk in every encoder, so frame boundaries are AEAD unit-group boundaries and give the exact cut-off", "VMess GlobalPadding bytes are unauthenticated by protocol design: with padding in play only the prefix property is demanded, not the cut-off", "SIP004 (legacy) reflection is out of scope (the property names SS2022 and VMess)"],
+    "plan": [{"name": "tamper", "check": "c05"}],
+}
+
+PROPS["C06"] = {
+    "level": "exploration",
+    "rule": "per seeded deployment (every protocol/cipher x user table of 0/1/3 users): random byte strings of EVERY length 0..300 (+ long ones), valid reference handshakes under wrong credentials (random key, EVERY single-bit flip of the PSK / UUID, every 3rd bit of iPSK and uPSK, password variants, unregistered user with right iPSK, right user with wrong iPSK, iPSK used as user key, uPSK without identity header), valid handshakes of every other protocol, EVERY proper prefix of a valid handshake followed by silence and by random bytes, VMess valid auth-id with foreign header key; oracle: the real server decoder never yields an item; plus for every registered user: request accepted, attributed to that user, answered under that user's key and under no other key (TCP and UDP); evaluations = inputs presented; distinct = deployments",
+    "exhaustive_note": "all lengths 0..300 of random input, all key-bit positions, all handshake prefixes are enumerated per deployment",
+    "assumptions": TB + ["'no item yielded by the server-side decoder' is the codec-level form of 'never dials / never forwards'; the running-node form is part of C08/C01 canaries"],
+    "plan": [{"name": "credential", "check": "c06"}],
+}
+
+PROPS["C07"] = {
+    "level": "exploration",
+    "rule": "every network-facing decoder (server inbound and client reply decoders of every protocol/cipher in states initial / header-done / mid-chunk, datagram-in-stream decoders, Shadowsocks UDP decoders of both roles, the four SOCKS5 handshake decoders, Socks5UdpCodec, HTTP request-target extraction) x input classes: all single bytes and sampled pairs, random strings of every length 0..80 and longer ones, the valid continuation with one bit flipped or truncated at a point followed by EOF, and well-authenticated-but-malformed frames built with the reference implementation (every ATYP 0..255, domain lengths vs. actual, padding lengths at u16 boundaries, truncated and checksum-valid-but-short VMess headers, every VMess command/option/padding nibble, masked chunk lengths 0..80, every Trojan command, non-ASCII hashes, empty VMess response headers); delivered whole, byte-by-byte and in random cuts, then end-of-stream; SOCKS5 decoders: ALL inputs of length <= 2 and lengths 3-6 over a 9-value alphabet; monitors: panic hook with in-repo frame, UTF-8 validity of every yielded host name; evaluations = inputs presented; distinct = (decoder, case) pairs",
+    "exhaustive_note": "all inputs of length <= 2 for the SOCKS5 decoders and all single-byte inputs for every stream decoder state are enumerated",
+    "assumptions": TB + ["a decoder may answer None, Some or Err; only panics, aborts, sanitizer reports and invalid strings are violations", "the same workload at reduced scale runs under AddressSanitizer and Miri in the thorough tier"],
+    "plan": [
+        {"name": "crash-native", "check": "c07"},
+        {"name": "crash-dev-profile", "check": "c07", "variant": "dev", "scale": 0.25, "tiers": ("thorough",)},
+        {"name": "crash-asan", "check": "c07", "variant": "asan", "scale": 0.1, "tiers": ("thorough",), "optional": True, "env": {"ASAN_OPTIONS": "detect_leaks=0:halt_on_error=1:abort_on_error=0"}},
+    ],
+}
+
+PROPS["C09"] = {
+    "level": "exploration",
+    "rule": "rounds of T in {2,4,8,16} OS threads released by a barrier, each running 24 operations over the state real flows share (one tcp::Context with its salt cache, one client context, the process-wide UDP cipher cache, one shared server UDP codec and user table; colliding session ids on purpose); every operation's outcome is known a priori through the reference implementation (round-trip equality), so a shared corruption cannot hide; monitors: result oracle, panic hook, and ThreadSanitizer on the same binary (reports with a frame in an octo_squirrel crate); the evidence reports the distinct overlap patterns observed; evaluations = operations; distinct = rounds",
+    "assumptions": TB + ["schedules are sampled, not enumerated: 'held on the interleavings observed'", "TSan reports without an in-repo frame are counted as foreign and not judged", "the running-node form (2..64 concurrent flows on 2..16 worker threads) is exercised by the C01/C02 checks"],
+    "plan": [
+        {"name": "stress-native", "check": "c09"},
+        {"name": "stress-tsan", "check": "c09", "variant": "tsan", "scale": {"quick": 0.15, "thorough": 0.4}, "env": {"TSAN_OPTIONS": "halt_on_error=0:exitcode=0:report_signal_unsafe=0"}, "optional": True},
+    ],
+}
+
+PROPS["C10"] = {
+    "level": "exploration",
+    "rule": "the complete boundary grid: timestamp offsets {-2^31,-3600,-121,-120,-119,-61,-31,-30,-29,-1,0,1,29,30,31,61,119,120,121,3600,2^31} (+ ts=0, ts=u64::MAX) x all 256 type bytes x request-salt echoes {own, every single-bit flip, another flow's, zero} x all 256 VMess response authentication bytes, for every SIP022 cipher (TCP and UDP, both directions, with and without user table) and both VMess securities; replays: sequential with the hooked clock advanced by 0/1/29/30/31/59/60 s, during an incomplete original, concurrent on 2/4/8/16 threads (200 / 3000 barrier contests); thorough adds 31 s of real time and 102401 interposed handshakes; each decision of the real decoder is compared with the rule evaluated from the fields the harness put in and the pinned clock; evaluations = decisions compared; distinct = distinct (check, protocol, case)",
+    "exhaustive_note": "the boundary grid is finite and enumerated completely; concurrency contests are samples",
+    "assumptions": TB + ["the clock is pinned through the verif clock hook (aead_2022::now, vmess::now); the salt cache expires by Instant, which only the two real-time cases of the thorough tier exercise"],
+    "plan": [{"name": "boundary-grid", "check": "c10"}],
+}
+
+PROPS["C12"] = {
+    "level": "exploration",
+    "rule": "the instrumented reference decoder records (key fingerprint, nonce) of every AEAD unit it opens while decoding what the REAL encoders emitted: 60 sessions per deployment (3 of them with up to 300 writes each way) over every encrypted protocol/cipher, one 70000-chunk session per stream family (65535 for VMess: the 16-bit counter wrap is protocol-defined), Shadowsocks UDP sessions of 1500 / 10000 datagrams in both directions; a hash set finds reuse; per-session randomness (request/response salts, session ids, VMess body key/IV, auth ids, connection nonces, XChaCha nonces, legacy UDP salts) is checked for repeats, stuck bits, and against an independently started second process; packet ids must strictly increase and a session preset to u64::MAX-2 must end instead of wrapping; evaluations = deployments + counter-end sessions; distinct = deployments with at least one recorded unit",
+    "assumptions": TB + ["unpredictability of the generator is NOT decidable by observation (a time- or pid-seeded generator passes); only distinctness, bit balance and cross-process independence are observed", "2^64 packets / 2^96 chunks cannot be produced: the packet-id end is reached through the guarded preset hook, the chunk counter through its first byte carries"],
+    "plan": [{"name": "nonce-monitor", "check": "c12"}],
+}
+
+PROPS["C14"] = {
+    "level": "exploration",
+    "rule": "(a) both address encodings round-tripped for IPv4/IPv6 boundary and random addresses and for domain names of EVERY length 1..255 over three alphabets (LDH, punctuation, multi-byte UTF-8) x 5 ports, each followed by a tail (empty / 1 byte / 300 bytes / a second encoded address): decode must return the identical address and leave exactly the tail, length() and try_decode_at must agree with encode, bytes must equal the reference encoding; (b) EVERY domain length 0..1024 x 3 alphabets x {SOCKS5 CONNECT, HTTP CONNECT, HTTP GET} through the real local handshake on a loopback socket pair: an accepted name must be representable and byte-identical to the request, an unrepresentable one must be refused; (c) every accepted address through the first encode of the client codecs (stream and datagram-in-stream), decoded by the reference server: identical address, identical payload; evaluations = round trips + handshakes + codec encodes; distinct = distinct addresses",
+    "exhaustive_note": "all domain lengths 0..1024 per alphabet and handshake kind, and all lengths 1..255 for the encoder round trips, are enumerated",
+    "assumptions": TB + ["the 'client accepts' boundary is the local handshake (get_request_addr) and, for UDP, Socks5UdpCodec", "refusing a representable but exotic name (non-LDH) is allowed; only LDH names up to 200 bytes are required to be accepted through HTTP (the handshake peeks at most 1024 bytes)"],
+    "plan": [{"name": "addresses", "check": "c14"}],
+}
